@@ -13,6 +13,7 @@ import ZV.Driver.Lub
 import ZV.Driver.CK
 import ZV.Driver.ZCore
 import ZV.Driver.Sps
+import ZV.Driver.C15
 
 def dispatch (line : String) : String :=
   match line.trimAscii.toString.splitOn " " with
@@ -28,6 +29,7 @@ def dispatch (line : String) : String :=
   | "c13" :: ws => ZV.Driver.C13.handle ws
   | "ck" :: ws => ZV.Driver.CK.handle ws
   | "c11" :: ws => ZV.Driver.C11.handle ws
+  | "c15" :: ws => ZV.Driver.C15.handle ws
   | "sps" :: ws => ZV.Driver.Sps.handle ws
   | _ => "bad-op"
 
